@@ -412,3 +412,44 @@ def codes_of(obj, names=None):
         if hasattr(f, "__code__"):
             out.append(f.__code__)
     return out
+
+
+def concurrent_purity(ctx, codes, jobs, rng, runs, cls="concurrent_calls", nthreads=(2, 2, 3), instr_all=False, timeout=30.0):
+    """Functions that are pure by contract, called from 2-3 real threads serialised by the token scheduler, with a context
+    switch possible at every line (or instruction) of `codes`.  jobs: list of (label, callable, args, expected) where
+    expected is the sequential result (or a predicate).  Any exception or differing result is a violation: module-level
+    scratch state, memos and function attributes must not leak between calls."""
+    hooks = LineHooks()
+    hooks.install(codes, "ALL" if instr_all else None)
+    try:
+        for _ in range(runs):
+            k = nthreads[rng.randrange(len(nthreads))]
+            picked = [jobs[rng.randrange(len(jobs))] for _ in range(k)]
+            res = {}
+            s = Sched(random_decider(rng, (0.05, 0.2, 0.5)[rng.randrange(3)]), max_steps=400000)
+
+            def body(i, job):
+                def f():
+                    res[i] = job[1](*job[2])
+                return f
+            for i, job in enumerate(picked):
+                s.spawn(body(i, job), "T%d" % i)
+            hooks.sched = s
+            ok = s.run(timeout=timeout)
+            hooks.sched = None
+            ctx.case(cls, key="%s|%d" % ("+".join(sorted(set(j[0] for j in picked))), min(s.switches, 8)), nontrivial=s.switches > k)
+            ctx.count(cls + ".yield_points", s.steps)
+            for i, (label, fn, args, expected) in enumerate(picked):
+                t = s.ts[i]
+                if t.exc is not None:
+                    ctx.violation("raises_under_interleaving:" + label, "%s%r raised %s: %s while another thread was inside the same module" % (label, args if len(repr(args)) < 200 else "(...)", type(t.exc).__name__, t.exc),
+                                  dict(jobs=[j[0] for j in picked], decisions=s.decisions[:300]))
+                elif ok:
+                    good = expected(res.get(i)) if callable(expected) else res.get(i) == expected
+                    if not good:
+                        ctx.violation("wrong_under_interleaving:" + label, "%s%r = %r under interleaving, sequential result %r" % (label, args if len(repr(args)) < 200 else "(...)", res.get(i), None if callable(expected) else expected),
+                                      dict(jobs=[j[0] for j in picked], decisions=s.decisions[:300]))
+            if not ok and s.aborted == "watchdog":
+                ctx.count("watchdog_inconclusive")
+    finally:
+        hooks.uninstall()
